@@ -69,6 +69,25 @@ pub fn run(op: &str, f: &[&str]) -> Option<String> {
             };
             Some(format!("{}|{}", first.line(), second))
         }
+        "c09id" => {
+            // `c09id <f|r> <code point, decimal> <0|1 trailing space>`: the plain-CSS reader's normalisation of one
+            // escaped code point at the first / a later position of an identifier -> `ok:<hex css>` | `err:..`
+            let cp: u32 = f.get(1)?.parse().ok()?;
+            let esc = format!("\\{:x}{}", cp, if f.get(2) == Some(&"1") { " " } else { "" });
+            let src = if f.first() == Some(&"f") {
+                format!("a{{b:{esc}z}}")
+            } else {
+                format!("a{{b:x{esc}z}}")
+            };
+            let r = compile_mem(
+                "css",
+                format("e", "10"),
+                "i.css",
+                src.as_bytes(),
+                MemLoader::new(Default::default()),
+            );
+            Some(r.line())
+        }
         "c09str" => {
             let v = unhex_str(f.first().copied().unwrap_or(""));
             let shown = rsass::css::CssString::new(v, rsass::value::Quotes::Double).to_string();
